@@ -212,6 +212,9 @@ def walk_discharge(ctx, ob):
     for rx, name, fn in WALKERS:
         if not re.search(rx, ob.body.path):
             continue
+        if name == 'matcher' and ob.kind == 'unwrap-option':
+            continue          # the matcher walk models the field getters as leaves that answer: an unwrap of one is decided by the
+                              # patterns in the data (pattern-typed), not by the walk
         key = (name, getattr(ctx, 'digest', None), ctx.cfg_name, ctx.tier)
         if key not in _WALK:
             _WALK[key] = fn(ctx)
